@@ -94,7 +94,12 @@ fn run_zst<K: Kind<crate::zexec::ZDrop>>(plan: &Plan, st: &mut Stats, fl: &mut F
     ex.finish();
 }
 
-fn run_vec<K: Kind<Tok> + Kind<Wide> + Kind<tok::Plain> + Kind<crate::zexec::ZDrop>>(plan: &Plan, st: &mut Stats, fl: &mut Flags, counts: &mut (u32, u32), viol_op: &mut Option<OpK>) {
+fn run_vec<K: Kind<Tok> + Kind<Wide> + Kind<tok::Plain> + Kind<crate::zexec::ZDrop>>(plan: &Plan, st: &mut Stats, fl: &mut Flags, counts: &mut (u32, u32), viol_op: &mut Option<OpK>)
+where
+    for<'a> VecExec<'a, K, Tok>: Stepper<K, Tok>,
+    for<'a> VecExec<'a, K, Wide>: Stepper<K, Wide>,
+    for<'a> VecExec<'a, K, tok::Plain>: Stepper<K, tok::Plain>,
+{
     if plan.elem == 1 {
         st.runs_wide += 1;
         run_vec_x::<K, Wide>(plan, st, fl, counts, viol_op)
@@ -109,7 +114,10 @@ fn run_vec<K: Kind<Tok> + Kind<Wide> + Kind<tok::Plain> + Kind<crate::zexec::ZDr
     }
 }
 
-fn run_vec_x<K: Kind<X>, X: Item>(plan: &Plan, st: &mut Stats, fl: &mut Flags, counts: &mut (u32, u32), viol_op: &mut Option<OpK>) {
+fn run_vec_x<K: Kind<X>, X: Item>(plan: &Plan, st: &mut Stats, fl: &mut Flags, counts: &mut (u32, u32), viol_op: &mut Option<OpK>)
+where
+    for<'a> VecExec<'a, K, X>: Stepper<K, X>,
+{
     let mut ex = VecExec::<K, X>::new(plan.kind, st);
     ex.uniform = plan.uniform;
     if plan.uniform {
@@ -138,7 +146,10 @@ fn run_vec_x<K: Kind<X>, X: Item>(plan: &Plan, st: &mut Stats, fl: &mut Flags, c
     ex.finish();
 }
 
-fn run_mat<F: MatFam<L>, L: Leaf>(plan: &Plan, home_cm: bool, st: &mut Stats, fl: &mut Flags, counts: &mut (u32, u32), viol_op: &mut Option<OpK>) {
+fn run_mat<F: MatFam<L>, L: Leaf>(plan: &Plan, home_cm: bool, st: &mut Stats, fl: &mut Flags, counts: &mut (u32, u32), viol_op: &mut Option<OpK>)
+where
+    for<'a> VecExec<'a, F::LK, F::Line>: Stepper<F::LK, F::Line>,
+{
     let mut mx = MatExec::<F, L>::new(home_cm);
     mx.start_fresh(st);
     let mut idx = 0usize;
